@@ -1,1 +1,209 @@
-(* Model/FormatSrc.v - placeholder: support definitions for the generated formatter *)
+(** Model/FormatSrc.v — the vocabulary the GENERATED formatter (Gen/GenC08.v, written by
+    tools/py2coq_c08.py from the current pypyr/formatting.py) is expressed in, and the
+    hand-written instances of the primitives the translator leaves abstract.
+
+    Nothing here restates pypyr's logic: it is (1) Python data the source manipulates
+    (RecursionSpec instances, the entries of the [result] list, the int-or-False
+    [auto_arg_index]), (2) Python built-ins over the [val] universe (isinstance against the
+    classes the source names, iteration, [obj.__class__(iterable)], [''.join], indexing,
+    slicing, iterating the lazy [parse] generator), and (3) how CPython's [get_field] /
+    [_vformat] and the special tags' [get_value] are instantiated by Model/Format.v. *)
+From PV Require Export Format.
+Open Scope string_scope.
+
+(** * (1) data *)
+
+(** a [RecursionSpec] instance: exactly the attributes [__init__] assigns *)
+Record src_rspec := mk_src_rspec {
+  rs_has_recursed : bool;
+  rs_is_set : bool;
+  rs_is_recursive : bool;
+  rs_is_flat : bool;
+  rs_format_spec : string }.
+
+(** [x.attr = v] on an instance that nothing else refers to yet *)
+Definition rs_set_has_recursed (b : bool) (r : src_rspec) : src_rspec :=
+  mk_src_rspec b (rs_is_set r) (rs_is_recursive r) (rs_is_flat r) (rs_format_spec r).
+Definition rs_set_is_set (b : bool) (r : src_rspec) : src_rspec :=
+  mk_src_rspec (rs_has_recursed r) b (rs_is_recursive r) (rs_is_flat r) (rs_format_spec r).
+Definition rs_set_is_recursive (b : bool) (r : src_rspec) : src_rspec :=
+  mk_src_rspec (rs_has_recursed r) (rs_is_set r) b (rs_is_flat r) (rs_format_spec r).
+Definition rs_set_is_flat (b : bool) (r : src_rspec) : src_rspec :=
+  mk_src_rspec (rs_has_recursed r) (rs_is_set r) (rs_is_recursive r) b (rs_format_spec r).
+Definition rs_set_format_spec (s : string) (r : src_rspec) : src_rspec :=
+  mk_src_rspec (rs_has_recursed r) (rs_is_set r) (rs_is_recursive r) (rs_is_flat r) s.
+
+(** an element of [_format_keep_type]'s [result] list: [(obj, is_literal, recursion_spec)];
+    a literal text is the str object [VStr], its spec is [None] *)
+Notation src_entry := (val * bool * option src_rspec)%type.
+
+(** [auto_arg_index]: an int, or [False] once a numbered field was seen *)
+Inductive autoidx := AutoOff | AutoAt (n : Z).
+
+Definition auto_is_false (a : autoidx) : bool :=
+  match a with AutoOff => true | AutoAt _ => false end.
+Definition auto_truth (a : autoidx) : bool :=
+  match a with AutoOff => false | AutoAt n => negb (Z.eqb n 0) end.
+Definition auto_str (a : autoidx) : string :=
+  match a with AutoOff => "False" | AutoAt n => str_of_Z n end.
+Definition auto_add (a : autoidx) (k : Z) : autoidx :=     (* False + 1 = 1 *)
+  match a with AutoOff => AutoAt k | AutoAt n => AutoAt (n + k) end.
+
+(** * (2) built-ins *)
+
+(** attribute access on something that may be [None] *)
+Definition need_attr {A} (o : option A) (attr : string) : res A :=
+  match o with
+  | Some a => Ok a
+  | None => Err "AttributeError" ("'NoneType' object has no attribute '" ++ attr ++ "'")
+  end.
+
+(** the classes (among those the translator knows by name) a value is an instance of;
+    [Sequence] / [Mapping] / [Set] are the collections.abc registrations *)
+Definition classes_of (v : val) : list string :=
+  match v with
+  | VNone => ["NoneType"]
+  | VBool _ => ["bool"; "int"]
+  | VInt _ => ["int"]
+  | VFloat _ => ["float"]
+  | VStr _ => ["str"; "Sequence"]
+  | VBytes _ => ["bytes"; "Sequence"]
+  | VList _ => ["list"; "Sequence"]
+  | VTuple _ => ["tuple"; "Sequence"]
+  | VSet _ => ["Set"]
+  | VDict _ => ["dict"; "Mapping"]
+  | VPy _ _ => ["PyString"; "SpecialTagDirective"]
+  | VSic _ => ["SicString"; "SpecialTagDirective"]
+  | VJsonify _ => ["Jsonify"; "SpecialTagDirective"]
+  | VObj _ => []
+  | VExn _ _ _ => ["BaseException"]
+  end.
+
+Definition isinst_val (v : val) (cls : string) : bool := str_in cls (classes_of v).
+
+Fixpoint isinst_any (v : val) (classes : list string) : bool :=
+  match classes with
+  | [] => false
+  | c :: r => isinst_val v c || isinst_any v r
+  end.
+
+(** [types and isinstance(v, types)] for an attribute that is None, a class or a tuple *)
+Definition isinst_opt (v : val) (classes : option (list string)) : bool :=
+  match classes with
+  | Some cs => isinst_any v cs
+  | None => false
+  end.
+
+(** passing an object where the callee needs a str *)
+Definition as_str (v : val) : res string :=
+  match v with VStr s => Ok s | _ => Unsup end.
+
+Fixpoint str_take (n : nat) (s : string) : string :=      (* s[:n] *)
+  match n, s with
+  | S m, String c r => String c (str_take m r)
+  | _, _ => EmptyString
+  end.
+
+Fixpoint str_drop (n : nat) (s : string) : string :=      (* s[n:] *)
+  match n, s with
+  | S m, String _ r => str_drop m r
+  | _, _ => s
+  end.
+
+Definition list_get {A} (l : list A) (i : nat) : res A :=  (* l[i] *)
+  match nth_error l i with
+  | Some a => Ok a
+  | None => Err "IndexError" "list index out of range"
+  end.
+
+(** [sep.join(items)]: items that are not str are outside the model *)
+Fixpoint strs_of_vals (l : list val) : res (list string) :=
+  match l with
+  | [] => Ok []
+  | VStr s :: r => let* rest := strs_of_vals r in Ok (s :: rest)
+  | _ :: _ => Unsup
+  end.
+
+Definition str_join_vals (sep : string) (l : list val) : res string :=
+  let* ss := strs_of_vals l in Ok (join sep ss).
+
+(** [for x in obj] / [for k, v in obj.items()] *)
+Definition py_iter (v : val) : res (list val) :=
+  match v with
+  | VList l | VTuple l | VSet l => Ok l
+  | VDict l => Ok (map fst l)
+  | _ => Unsup
+  end.
+
+Definition py_items (v : val) : res (list (val * val)) :=
+  match v with VDict l => Ok l | _ => Unsup end.
+
+(** [obj.__class__(iterable)] *)
+Definition class_call_pairs (obj : val) (pairs : list (val * val)) : res val :=
+  match obj with
+  | VDict _ => Ok (VDict (rebuild_dict pairs))
+  | _ => Unsup
+  end.
+
+Definition class_call_items (obj : val) (xs : list val) : res val :=
+  match obj with
+  | VList _ => Ok (VList xs)
+  | VTuple _ => Ok (VTuple xs)
+  | VSet _ => let* s := res_of_opt (set_of_list xs) in Ok (VSet s)
+  | _ => Unsup
+  end.
+
+(** [for item in self.parse(s): body] — the generator is lazy: the items before a syntax
+    error are processed, then the error is raised *)
+Fixpoint for_items {S} (items : list item) (tl : ptail) (body : S -> item -> res S) (s : S)
+  : res S :=
+  match items with
+  | [] => raise_tail tl (Ok s)
+  | it :: r => let* s' := body s it in for_items r tl body s'
+  end.
+
+Definition for_parse {S} (p : list item * ptail) (body : S -> item -> res S) (s : S) : res S :=
+  for_items (fst p) (snd p) body s.
+
+(** how [Context] constructs and calls the formatter: [vformat(value, None, self)] *)
+Record src_ambient := mk_src_ambient { amb_args_is_none : bool; amb_kwargs_is_context : bool }.
+
+(** * (3) the primitives, instantiated by the hand model *)
+Section Instances.
+  Variable ctx : dict.
+
+  (** [Formatter.get_field(name, None, context)] -> (obj, first) *)
+  Definition src_get_field (name : string) : res (val * val) :=
+    let* v := get_field ctx name in Ok (v, key_of_name (fst (split_first name))).
+
+  (** [Formatter._vformat(spec, None, context, used, depth, auto_arg_index)]: with no
+      positional arguments every auto-numbered or numbered field raises inside
+      [get_field], so the index comes back as it went in; only the state before any
+      such field is modelled *)
+  Definition src_vformat (spec : string) (depth : Z) (a : autoidx) : res (string * autoidx) :=
+    match a with
+    | AutoAt 0%Z => let* s := vformat_std ctx (Z.to_nat (depth + 1)) spec in Ok (s, a)
+    | _ => Unsup
+    end.
+
+  (** [PyString / SicString / Jsonify .get_value(context)] *)
+  Definition src_special_value (rec : val -> bool -> res val) (v : val) : res val :=
+    match v with
+    | VPy src e => eval_pystring ctx src e
+    | VSic s => Ok (VStr s)
+    | VJsonify x =>
+        let* y := rec x false in
+        let* s := res_of_opt (json_dumps y) in Ok (VStr s)
+    | _ => Unsup
+    end.
+End Instances.
+
+(** the model's [rspec] / [entry] seen as the source's objects *)
+Definition src_of_rspec (rs : rspec) (recursed : bool) : src_rspec :=
+  mk_src_rspec recursed (r_recursive rs || r_flat rs) (r_recursive rs) (r_flat rs) (r_spec rs).
+
+Definition enc_entry (e : entry) : src_entry :=
+  match e with
+  | ELit s => (VStr s, true, None)
+  | EObj v rs recursed => (v, false, Some (src_of_rspec rs recursed))
+  end.
